@@ -14,6 +14,66 @@ def _only_wb(kind, script):
     return all(r[0] != "f" or r[1] in wb for r in script)
 
 
+def _eff(case):
+    """(kind, wl, ops, sends, recvs) with the bytes a caller-supplied txbs held at construction as a first tx"""
+    kind, wl, ops, sends, recvs = case[:5]
+    own = case[6] if len(case) > 6 else None
+    if own and kind.startswith("client"):
+        ops = [("tx", bytes(own))] + list(ops)
+    return kind, wl, ops, sends, recvs
+
+
+def _wlflags(wl):
+    """(attached, txed, rxed) of the wire-log element of a case"""
+    if isinstance(wl, (list, tuple)) and wl and wl[0] == "cfg":
+        return True, bool(wl[5]), bool(wl[4])
+    return bool(wl), True, True
+
+
+def _srv_parts(case):
+    """("srvw", tls, log open at start, ops[, txed, rxed]) | ("srvs", tls, ops) -> (tls, wl attached, open, ops, txed, rxed)"""
+    if case[0] == "srvs":
+        return case[1], False, False, case[2], True, True
+    return case[1], True, bool(case[2]), case[3], (bool(case[4]) if len(case) > 4 else True), (bool(case[5]) if len(case) > 5 else True)
+
+
+def _server_stream_clauses(ops, steps):
+    """the C09 stream property PER CONNECTION of a multi-connection server: what a connection's socket accepted ++ what is still
+    queued for it == everything transmitIx queued for it, in order; and every service pass moves at least one byte on a healthy
+    connection (in the table, not cut off, its socket taking >= 1 byte per send) that has output queued — whatever the
+    sockets of the OTHER connections do"""
+    bad = []
+    conns = [op for op in ops if op[0] == "conn"]     # k-th accepted socket <-> k-th conn op (no close/reopen/dconn in these cases)
+    queued = {}      # socket index -> bytes queued by transmitIx
+    moved = {}       # socket index -> number of passes in which it moved bytes
+    prev = {}
+    for op, (st, snap) in zip(ops, steps):
+        socks = [(i, e) for i, e in enumerate(snap) if e[0] != "listen"]
+        by_ca = {}
+        for k, (i, e) in enumerate(socks):
+            if k < len(conns) and e[0] == "ix":
+                by_ca[conns[k][1]] = i
+        if op[0] == "tx" and st == "ok" and op[1] in by_ca:
+            queued[by_ca[op[1]]] = queued.get(by_ca[op[1]], b"") + op[2]
+        for k, (i, e) in enumerate(socks):
+            q = queued.get(i, b"")
+            kacc, ntx = e[6], e[5]
+            if len(kacc) + ntx != len(q):
+                bad.append("bytes-lost-or-duplicated")
+            elif kacc != q[:len(kacc)]:
+                bad.append("peer-not-prefix-in-order")
+            if op[0] == "svc" and i in prev and k < len(conns):
+                pw, pcut, pntx, pacc = prev[i]
+                script = conns[k][2]
+                healthy = bool(script) and all(x[0] == "acc" and x[1] >= 1 for x in script)
+                if healthy and pw == "ix" and not pcut and pntx > 0 and moved.get(i, 0) < len(script) and len(kacc) <= pacc:
+                    bad.append("healthy-not-drained")
+                if len(kacc) > pacc:
+                    moved[i] = moved.get(i, 0) + 1
+            prev[i] = (e[0], e[1], ntx, len(kacc))
+    return bad
+
+
 class C09(core.Check):
     pid = "C09"
     pkg = "Tcp"
@@ -50,6 +110,13 @@ class C09(core.Check):
             ("remotertls", True, [("tx", b"hello"), ("svc",), ("svc",)], [("acc", 2), ("f", T.SSLEOF)], [("d", b"abc"), ("f", T.SSLEOF)]),
             ("remotertls", False, [("tx", b"hello world"), ("ss",)] + [("ss",)] * 12, [("acc", 1)] * 14, []),
             ("client", True, [("tx", b"a" * 100), ("ss",), ("tx", b"b" * 100), ("ss",), ("ss",)], [("acc", 150), ("acc", 10), ("acc", 1000)], []),
+            # two connections: the one accepted first has a peer that does not read; the later one must still get its bytes
+            ("srvs", False, [("conn", 1, [], [], []), ("conn", 2, [("acc", 9), ("acc", 9)], [], []), ("svc",), ("tx", 1, b"stuck"), ("tx", 2, b"flows"), ("svc",), ("svc",)]),
+            ("srvs", True, [("conn", 1, [("acc", 1)], [], [("ok",)]), ("conn", 2, [("acc", 2), ("acc", 2), ("acc", 2)], [], [("ok",)]), ("conn", 3, [("acc", 9)], [], [("ok",)]),
+                            ("svc",), ("tx", 1, b"abc"), ("tx", 2, b"defgh"), ("tx", 3, b"xyz"), ("svc",), ("svc",), ("svc",), ("svc",)]),
+            # a wire log recording only one direction (server side and connection side)
+            ("srvw", False, True, [("conn", 1, [("acc", 2), ("acc", 9)], [("d", b"ab")], []), ("svc",), ("tx", 1, b"xyz"), ("svc",), ("svc",)], True, False),
+            ("srvw", True, False, [("conn", 1, [("acc", 9)], [("d", b"ab")], [("ok",)]), ("svc",), ("wlopen",), ("tx", 1, b"xyz"), ("svc",)], False, True),
             # a wire log attached to the server that is still closed when a connection is accepted and opened afterwards
             ("srvw", False, False, [("conn", 1, [("acc", 9), ("acc", 9)], [("d", b"ab"), ("f", T.EAGAIN), ("d", b"cd")], []), ("svc",), ("tx", 1, b"xy"), ("svc",), ("wlopen",), ("tx", 1, b"z"), ("svc",), ("svc",)]),
             ("srvw", True, True, [("conn", 1, [("acc", 1), ("acc", 9)], [("d", b"ab")], [("ok",)]), ("svc",), ("tx", 1, b"xy"), ("svc",), ("wlopen",), ("conn", 2, [("acc", 9)], [("d", b"q")], [("ok",)]), ("svc",), ("tx", 2, b"k"), ("svc",), ("svc",)]),
@@ -58,6 +125,9 @@ class C09(core.Check):
             ("life", False, False, 0, [("tx", b"abc"), ("connect", errno.ECONNREFUSED, None), ("connect", 0, None), ("feed", [("acc", 9)], []), ("service", 0, None)]),
             ("life", False, True, 2, [("tx", b"ab"), ("connect", errno.EINPROGRESS, None), ("tick", 2), ("connect", errno.EALREADY, None), ("tx", b"c"), ("service", 0, None), ("feed", [("acc", 1), ("acc", 9)], []), ("service", 0, None), ("service", 0, None)]),
             ("life", True, False, 0, [("tx", b"hello"), ("connect", 0, ("f", errno.ECONNRESET)), ("connect", 0, None), ("connect", 0, ("ok",)), ("feed", [("acc", 2), ("acc", 9)], []), ("service", 0, None), ("service", 0, None), ("reopen",), ("tx", b"x"), ("close",)]),
+            # caller-owned buffers, EMPTY at construction (and one already holding bytes): the client must use those very objects
+            ("client", True, [("tx", b"abc"), ("svc",), ("svc",)], [("acc", 2), ("acc", 9)], [("d", b"xyz")], None, b""),
+            ("clienttls", False, [("svc",), ("tx", b"q"), ("svc",)], [("acc", 9), ("acc", 9)], [("d", b"in")], None, b"pre"),
             # the other entry points and every wire log configuration
             ("client", "std", [("tx", b"abc"), ("svc",), ("sro",), ("clr",), ("sro",)], [("acc", 2)], [("d", b"hello"), ("d", b"xy"), ("d", b"z")]),
             ("remotertls", "samed", [("send1", b"hello"), ("recv1",), ("recv1",), ("send1", b"")], [("acc", 3)], [("d", b"ab"), ("d", b"")]),
@@ -109,7 +179,33 @@ class C09(core.Check):
                     else:
                         ops.append(("svc",))
                 ops += [("svc",), ("wlopen",) if rng.random() < 0.5 else ("svc",), ("tx", rng.choice(cas), alpha(3)), ("svc",), ("svc",)]
-                yield ("srvw", tls, rng.random() < 0.35, ops)
+                if rng.random() < 0.5:
+                    yield ("srvw", tls, rng.random() < 0.35, ops)
+                else:
+                    yield ("srvw", tls, rng.random() < 0.35, ops, rng.random() < 0.6, rng.random() < 0.6)
+                continue
+            if i % 11 == 7:
+                # several connections on one server, each with its own stream: some peers do not read (their sockets take nothing,
+                # or little), others are healthy; output queued for all; many service passes
+                tls = rng.random() < 0.4
+                hs = [("ok",)] if tls else []
+                ncon = rng.randrange(2, 5)
+                ops = []
+                for ca in range(1, ncon + 1):
+                    m = rng.random()
+                    if m < 0.35:
+                        sends = []                                                    # peer alive but not reading: every send would block
+                    elif m < 0.5:
+                        sends = [("acc", rng.choice([1, 2]))] * rng.randrange(1, 3)     # takes a little, then blocks
+                    else:
+                        sends = [("acc", rng.choice([1, 2, 3, 1 << 30])) for _ in range(rng.randrange(6, 14))]   # healthy
+                    ops.append(("conn", ca, sends, [("d", T.gen_bytes(rng, 3))] if rng.random() < 0.5 else [], hs))
+                ops.append(("svc",))
+                for ca in rng.sample(range(1, ncon + 1), ncon):
+                    ops.append(("tx", ca, T.gen_bytes(rng, rng.choice([1, 4, 9]))))
+                for _ in range(rng.randrange(3, 12)):
+                    ops.append(("svc",) if rng.random() < 0.8 else ("tx", rng.randrange(1, ncon + 1), T.gen_bytes(rng, rng.choice([1, 3]))))
+                yield ("srvs", tls, ops)
                 continue
             if i % 6 == 1:
                 # the whole life of a client: bytes queued before / between connections, failed attempts, reopen, reconnect timer
@@ -138,8 +234,12 @@ class C09(core.Check):
             if i % 7 == 3:
                 # other public entry points: serviceReceiveOnce, clearRxbs, receive()/send(data) called by the application,
                 # every WireLog configuration, reads longer than .bs (short reads leave the rest in the kernel)
-                wlm = rng.choice([False, "raw", "std", "samed", "file", "ctx", "std", "samed"])
-                alpha = (lambda n_: bytes(rng.randrange(97, 123) for _ in range(n_))) if wlm not in (False, "raw") else (lambda n_: T.gen_bytes(rng, n_))
+                wlm = rng.choice([False, "raw", "std", "samed", "file", "ctx", "std", "samed", "cfg", "cfg", "cfg"])
+                if wlm == "cfg":    # any point of the flag space: format, one shared log, files, each direction on / off
+                    samed = rng.random() < 0.4
+                    wlm = ("cfg", (not samed) and rng.random() < 0.4, samed, rng.random() < 0.3, rng.random() < 0.65, rng.random() < 0.65)
+                israw = wlm == "raw" or (isinstance(wlm, tuple) and wlm[1])
+                alpha = (lambda n_: bytes(rng.randrange(97, 123) for _ in range(n_))) if (wlm and not israw) else (lambda n_: T.gen_bytes(rng, n_))
                 bs = rng.choice([None, None, 4, 16, 64])
                 unit = bs or 8096
                 style = rng.choice(["direct", "once", "mixed"])
@@ -211,7 +311,11 @@ class C09(core.Check):
                 recvs = T.gen_recvs(rng, kind, rng.randrange(0, 8), fault_p=fp, flavour=flav, big=(tier == "thorough"))
             if rng.random() < 0.2 and ops:   # the peer resets somewhere in the history (queued bytes are still delivered)
                 ops.insert(rng.randrange(0, len(ops) + 1), ("rst",))
-            yield (kind, rng.random() < 0.8, ops, sends, recvs)
+            if kind.startswith("client") and rng.random() < 0.5:
+                # the application supplies its own rxbs / txbs objects (empty, or txbs already holding bytes) and keeps using them
+                yield (kind, rng.random() < 0.8, ops, sends, recvs, None, rng.choice([b"", b"", b"pre", T.gen_bytes(rng, 7)]))
+            else:
+                yield (kind, rng.random() < 0.8, ops, sends, recvs)
 
     def request(self, case):
         if case[0] == "real":
@@ -220,10 +324,16 @@ class C09(core.Check):
             return T.request_client(*case[1:5])
         if case[0] == "wlclosed":
             return ("noop",)
+        if case[0] == "srvs":
+            return ("server", bool(case[1]), T.request_server(case[2]))
         if case[0] == "srvw":
-            return ("serverw", bool(case[1]), bool(case[2]), T.request_server(case[3]))
-        kind, wl, ops, sends, recvs = case[:5]
-        bs = case[5] if len(case) > 5 else 8096
+            tls, att, isopen, sops, txed, rxed = _srv_parts(case)
+            return ("serverw", bool(tls), isopen, txed, rxed, T.request_server(sops))
+        kind, wl, ops, sends, recvs = _eff(case)
+        bs = (case[5] if len(case) > 5 else None) or 8096
+        att, txed, rxed = _wlflags(wl)
+        if isinstance(wl, (list, tuple)):
+            return ("connf", kind, True, txed, rxed, [tuple(o) for o in ops], [tuple(s) for s in sends], T.chop(recvs, bs))
         return ("conn", kind, bool(wl), [tuple(o) for o in ops], [tuple(s) for s in sends], T.chop(recvs, bs))
 
     def run_impl(self, case):
@@ -233,8 +343,11 @@ class C09(core.Check):
             return T.run_client(tuple(case[1:5]))
         if case[0] == "wlclosed":
             return T.run_wl_closed(case)
+        if case[0] == "srvs":
+            return T.run_server((case[1], case[2]))
         if case[0] == "srvw":
-            return T.run_server((case[1], case[3], "direct", bool(case[2])))
+            tls, att, isopen, sops, txed, rxed = _srv_parts(case)
+            return T.run_server((tls, sops, "direct", isopen, (txed, rxed)))
         return T.run_conn(case)
 
     def compare_view(self, case, obs):
@@ -244,9 +357,25 @@ class C09(core.Check):
             return sx.dumps(obs)
         if case[0] == "wlclosed":
             return "noop"
-        if case[0] == "srvw":
+        if case[0] in ("srvw", "srvs"):
             return sx.dumps(T.strip_hard(obs))
         return sx.dumps(obs)
+
+    def exhaustive(self, tier):
+        cs = []
+        for kind in T.KINDS:
+            wb = T.wouldblock_codes(kind)[0]
+            for raw in (False, True):
+                for samed in (False, True):
+                    if raw and samed:
+                        continue       # one shared log without direction marks cannot be told apart per direction
+                    for filed in (False, True):
+                        for rxed in (False, True):
+                            for txed in (False, True):
+                                cs.append((kind, ("cfg", raw, samed, filed, rxed, txed),
+                                           [("tx", b"hello"), ("svc",), ("svc",), ("tx", b"xy"), ("svc",), ("svc",)],
+                                           [("acc", 2), ("f", wb), ("acc", 9), ("acc", 9)], [("d", b"ab"), ("d", b"c"), ("f", wb), ("d", b"def")]))
+        return cs, "every WireLog configuration (format raw/default x samed x file-backed x rxed x txed, minus raw+samed) x the four connection classes, on a history with partial sends and short reads"
 
     def _real_cases(self, rng, n, big):
         for _ in range(n):
@@ -276,10 +405,13 @@ class C09(core.Check):
         if case[0] == "wlclosed":
             raised, rx_ok, tx_ok = obs
             return (["wirelog-closed-breaks-traffic"] if raised or not (rx_ok and tx_ok) else [])
+        if case[0] == "srvs":
+            return sorted(set(_server_stream_clauses(case[2], obs[1])))
         if case[0] == "srvw":
             # a WireLog attached to the SERVER: from the moment it is (re)opened every byte any connection sends or receives is
-            # in it, whenever that connection was accepted; bytes moved while it was closed are not recorded
-            bad = []
+            # in it (per enabled direction), whenever that connection was accepted; bytes moved while it was closed are not recorded
+            tls_, att_, open_, sops_, txed_, rxed_ = _srv_parts(case)
+            bad = _server_stream_clauses(sops_, obs[1])
             base = {}      # socket index -> (|kacc|, |rxbs|) when the log was last opened (or the connection appeared)
             isopen = bool(case[2])
             st0, steps = obs
@@ -297,9 +429,9 @@ class C09(core.Check):
                     elif not isopen:
                         base[i] = (len(e[6]), len(e[4]))
                     kacc, rx, wtx, wrx = e[6], e[4], e[8], e[9]
-                    if wtx != kacc[base[i][0]:]:
+                    if wtx != (kacc[base[i][0]:] if txed_ else b""):
                         bad.append("wirelog-tx")
-                    if wrx != rx[base[i][1]:]:
+                    if wrx != (rx[base[i][1]:] if rxed_ else b""):
                         bad.append("wirelog-rx")
             return sorted(set(bad))
         if case[0] == "life":
@@ -314,7 +446,7 @@ class C09(core.Check):
                     bad.append("peer-not-prefix-in-order" if len(st[7]) + len(st[8]) == len(pay) else "bytes-lost-or-duplicated")
                     break
             return bad
-        kind, wl, ops, sends, recvs = case[:5]
+        kind, wl, ops, sends, recvs = _eff(case)
         steps, (txbs, rxbs, kacc, kdel, wtx, wrx, cutoff) = obs
         bad = []
         sofar = 0
@@ -357,9 +489,10 @@ class C09(core.Check):
             bad.append("rx-not-exact")
         if not any(o[0] in ("sr", "sro", "svc") for o in ops) and direct_rx != kdel:
             bad.append("direct-receive-bytes")
-        if wl and (wtx != kacc):
+        att, txed, rxed = _wlflags(wl)
+        if att and wtx != (kacc if txed else b""):      # per enabled direction: exactly the bytes that crossed the wire
             bad.append("wirelog-tx")
-        if wl and (wrx != kdel):
+        if att and wrx != (kdel if rxed else b""):
             bad.append("wirelog-rx")
         healthy_tx = _only_wb(kind, sends)
         healthy_rx = _only_wb(kind, recvs) and all(r[0] != "d" or r[1] for r in recvs)
@@ -388,7 +521,7 @@ class C09(core.Check):
         # C09-K2: RemoterTls with a wire log on a connection the peer has reset (who=self.cs.getpeername() raises)
         if case[0] == "wlclosed":
             return "C09-K5"
-        if case[0] in ("life", "srvw", "real"):
+        if case[0] in ("life", "srvw", "srvs", "real"):
             return None
         if case[0] == "remotertls" and case[1] and any(o[0] == "rst" for o in case[2]):
             return "C09-K2"
@@ -405,7 +538,10 @@ class C09(core.Check):
             return True
         if case[0] == "srvw":
             return any(op[0] == "wlopen" for op in case[3]) and any(e[0] != "listen" and (e[8] or e[9]) for st, snap in obs[1] for e in snap)
-        kind, wl, ops, sends, recvs = case[:5]
+        if case[0] == "srvs":
+            last = obs[1][-1][1] if obs[1] else ()
+            return sum(1 for e in last if e[0] != "listen") >= 2 and any(e[0] != "listen" and e[6] for e in last)
+        kind, wl, ops, sends, recvs = _eff(case)
         steps = obs[0]
         ntx = sum(1 for o in ops if o[0] == "tx" and o[1])
         nrx = sum(1 for r in recvs if r[0] == "d" and r[1])
@@ -420,7 +556,14 @@ class C09(core.Check):
             return ["wirelog-closed-then-traffic"]
         if case[0] == "srvw":
             return ["server-wirelog", "server-wirelog:" + ("starts-open" if case[2] else "starts-closed")] + \
-                (["server-wirelog:opened-later"] if any(op[0] == "wlopen" for op in case[3]) else [])
+                (["server-wirelog:opened-later"] if any(op[0] == "wlopen" for op in case[3]) else []) + \
+                (["server-wirelog:txed=%d,rxed=%d" % (int(bool(case[4])), int(bool(case[5])))] if len(case) > 5 else [])
+        if case[0] == "srvs":
+            last = obs[1][-1][1] if obs[1] else ()
+            f = ["server-streams", "server-streams:conns=%d" % min(4, sum(1 for e in last if e[0] != "listen"))]
+            if any(e[0] != "listen" and e[5] > 0 for e in last):
+                f.append("server-streams:some-output-stuck")
+            return f
         if case[0] == "life":
             f = ["client-life", "client-life:" + ("tls" if case[1] else "plain"), "sockets:%d" % min(6, len({o[2] for o in obs if o[2] is not None}))]
             first = next((i for i, o in enumerate(obs) if o[3]), None)
@@ -429,12 +572,14 @@ class C09(core.Check):
             return f
         if case[0] == "real":
             return ["real-loopback", "real:" + ("tls" if case[1] else "plain"), "real:" + case[2], "real-bytes:" + ("<100k" if obs[5] < 100000 else ">=100k")]
-        kind, wl, ops, sends, recvs = case[:5]
-        f = [kind, ("wl:" + ("raw" if wl is True else wl)) if wl else "nowl", f"ntx={min(4, sum(1 for o in ops if o[0] == 'tx'))}"]
+        kind, wl, ops, sends, recvs = _eff(case)
+        f = [kind, ("wl:" + ("raw" if wl is True else wl if isinstance(wl, str) else "cfg:txed=%d,rxed=%d,samed=%d,filed=%d" % (int(bool(wl[5])), int(bool(wl[4])), int(bool(wl[2])), int(bool(wl[3]))))) if wl else "nowl", f"ntx={min(4, sum(1 for o in ops if o[0] == 'tx'))}"]
         for kk in ("sro", "clr", "recv1", "send1"):
             if any(o[0] == kk for o in ops):
                 f.append("op:" + kk)
-        bsz = case[5] if len(case) > 5 else 8096
+        bsz = (case[5] if len(case) > 5 else None) or 8096
+        if len(case) > 6 and case[6] is not None:
+            f.append("caller-owned-buffers:" + ("empty" if not case[6] else "prefilled"))
         if len(_payload(ops)) > bsz:
             f.append("backlog>bs")
             if any(s_[0] == "acc" and 0 < s_[1] < bsz for s_ in sends):
@@ -470,11 +615,16 @@ class C09(core.Check):
         if case[0] == "srvw":
             ops = case[3]
             for i in range(len(ops)):
-                yield case[:3] + (ops[:i] + ops[i + 1:],)
+                yield case[:3] + (ops[:i] + ops[i + 1:],) + tuple(case[4:])
+            return
+        if case[0] == "srvs":
+            ops = case[2]
+            for i in range(len(ops)):
+                yield ("srvs", case[1], ops[:i] + ops[i + 1:])
             return
         if case[0] != "real" and len(case) > 5:
             for c in self.shrink(case[:5]):
-                yield c + (case[5],)
+                yield c + tuple(case[5:])
             return
         if case[0] == "real":
             _, tls, d, sizes, sb, re_, seed = case
@@ -493,10 +643,12 @@ class C09(core.Check):
                 yield (kind, wl, ops[:i] + [("tx", o[1][:len(o[1]) // 2])] + ops[i + 1:], sends, recvs)
 
     def mutate(self, rng, case):
-        if case[0] in ("real", "life", "wlclosed", "srvw"):
+        if case[0] in ("srvw", "srvs"):      # neighbours of a differing server case: the failing-input search starts here
+            return list(self.shrink(case))[:40]
+        if case[0] in ("real", "life", "wlclosed"):
             return []
         if len(case) > 5:
-            return [c + (case[5],) for c in self.mutate(rng, case[:5])] + [case[:5]]
+            return [c + tuple(case[5:]) for c in self.mutate(rng, case[:5])] + [case[:5]]
         kind, wl, ops, sends, recvs = case[:5]
         out = list(self.shrink(case))[:30]
         for k in T.KINDS:
